@@ -20,6 +20,7 @@ static mut W2_LEFT: bool = false; // a second waiter that registers behind the r
 static mut W2: Option<Arc<SyncBlocker>> = None;
 static mut TIMED_OUT: bool = false;
 static mut ROOT_PARKED: bool = false;
+static mut CANCEL_MODE: bool = false; // the root waiter is cancelled: its park gives up with Canceled
 static mut QTAB: [u64; 4] = [0; 4];
 static mut QH: usize = 0;
 static mut QT: usize = 0;
@@ -109,6 +110,10 @@ fn park_model(b: &Blocker, timeout: Option<Duration>) -> Result<(), ParkError> {
             *tok = 0;
             return Ok(());
         }
+        if CANCEL_MODE && kani::any() {
+            TIMED_OUT = true;
+            return Err(ParkError::Canceled);
+        }
         if timeout.is_some() && kani::any() {
             TIMED_OUT = true;
             return Err(ParkError::Timeout);
@@ -119,6 +124,14 @@ fn park_model(b: &Blocker, timeout: Option<Duration>) -> Result<(), ParkError> {
         }
         if NOTIFY_LEFT {
             run_notify();
+        }
+        if CANCEL_MODE {
+            // cancelled while parked, or together with the wake-up (Park reports Canceled in both cases)
+            if *tok == 0 || kani::any() {
+                *tok = 0;
+                TIMED_OUT = true;
+                return Err(ParkError::Canceled);
+            }
         }
         if *tok != 0 {
             *tok = 0;
@@ -222,3 +235,54 @@ cv_harness! { #[kani::unwind(3)] fn c11_condvar_untimed_waiter_vs_notify_one() {
 cv_harness! { #[kani::unwind(3)] fn c11_condvar_timed_waiter_w2_vs_notify_one() { waiter_vs_notify_cfg(false, true, true) } }
 cv_harness! { #[kani::unwind(3)] fn c11_condvar_timed_waiter_vs_notify_one() { waiter_vs_notify_cfg(false, true, false) } }
 cv_harness! { #[kani::unwind(3)] fn c11_condvar_untimed_waiter_vs_notify_all() { waiter_vs_notify_cfg(true, false, false) } }
+
+// ---- cancelled waiter (C11 "a waiter that ... is cancelled passes the notification on" / C09) ------
+static mut CW_M: *const Mutex<u8> = std::ptr::null();
+fn cv_cancel_panic_final() -> ! {
+    unsafe {
+        assert!(CANCEL_MODE && TIMED_OUT, "C09: cancel panic in a waiter that was never cancelled");
+        np::HOOK = None;
+        // Condvar::wait released the mutex before it raised the cancel panic
+        assert!(crate::sync::mutex::verif_kani::mutex_count(&*CW_M) == 0, "C09/C11: the cancelled waiter left the mutex locked");
+        assert!(!(*CW_M).is_poisoned(), "C09: mutex poisoned by a cancellation");
+        if W2_LEFT {
+            run_w2_enqueue();
+        }
+        if NOTIFY_LEFT {
+            run_notify();
+        }
+        if let Some(w2) = W2.as_ref() {
+            let w2_tok = *crate::sync::blocking::verif_kani::sync_blocker_token(w2);
+            if W2_QUEUED_AT_NOTIFY {
+                assert!(w2_tok == 1, "C11/C09: a notify_one issued with a live waiter enqueued woke nobody: the cancelled waiter did not pass the notification on");
+            }
+            kani::cover!(W2_QUEUED_AT_NOTIFY && np::PREEMPTS > 0, "notify landed inside the cancelled waiter's operation with a second waiter queued");
+            kani::cover!(W2_QUEUED_AT_NOTIFY && np::PREEMPTS == 1, "notify after the cancelled waiter left (stale queue entry forwards)");
+        }
+    }
+    kani::assume(false);
+    unreachable!()
+}
+cv_harness! {
+    #[kani::unwind(3)]
+    #[kani::stub(crate::cancel::trigger_cancel_panic, cv_cancel_panic_final)]
+    fn c11_condvar_cancelled_waiter_w2_vs_notify_one() {
+        let cv: &'static Condvar = Box::leak(Box::new(Condvar::new()));
+        let m: &'static Mutex<u8> = Box::leak(Box::new(Mutex::new(0u8)));
+        unsafe {
+            CV = cv;
+            CW_M = m;
+            CANCEL_MODE = true;
+            NOTIFY_LEFT = true;
+            NOTIFY_ALL = false;
+            W2_LEFT = true;
+        }
+        let g = m.lock().unwrap();
+        unsafe { np::HOOK = Some(hook) };
+        // the root is cancelled at a solver-chosen moment; if the wake-up wins it returns normally
+        let g2 = cv.wait(g).unwrap();
+        unsafe { np::HOOK = None };
+        assert!(crate::sync::mutex::verif_kani::mutex_count(m) == 1);
+        drop(g2);
+    }
+}
